@@ -14,7 +14,7 @@ def run(ctx):
     ctx.cov["rule"] = ("clusters with 2-6 comparable pending jobs in one leaf queue (same template, gang shape, preemptibility; shuffled "
                        "creation times and priorities) competing with other queues for too little capacity; judged when allocate is done; "
                        "non-trivial = at least two comparable jobs and at least one placement")
-    n = 1000 if ctx.quick else 10000
+    n = 3000 if ctx.quick else 30000
     st_cluster.run_stage(ctx, PREFIXES, [("fifo", n)], nontrivial_fn=nontrivial)
 
 
